@@ -205,12 +205,18 @@ fn replay(path: &str) -> ! {
     let mut base = vec![];
     base_variant(&pieces).render(&mut base);
     let mut bad = [false; 2];
+    let base_unsound = j["features"]["differs"] == "base-message-not-sound";
     for r in 0..2 {
-        let (_, b) = run_obs(&base);
+        let (okb, b) = run_obs(&base);
         let (_, o) = run_obs(&input);
         println!("round {r}: base \"{}\": {}", show(&base), b.show());
         println!("round {r}: variant \"{}\": {}", show(&input), o.show());
-        bad[r] = b != o;
+        bad[r] = if base_unsound {
+            let units = TEMPLATES[ti].matches(';').count() + 1;
+            !okb || !b.errs.is_empty() || b.calls.len() != units
+        } else {
+            b != o
+        };
     }
     if bad[0] != bad[1] {
         println!("MACHINERY-ERROR replay is not deterministic");
